@@ -8,7 +8,7 @@
    starts clean (no inherited interruption request, task datum or exit callbacks) and on a stack of
    the size configured for its class.                                                          *)
 EXTENDS Naturals, Integers, FiniteSets
-CONSTANTS Task
+CONSTANTS Task, Deviations
 VARIABLES st, depth, tld, lo, hi
 vars == <<st, depth, tld, lo, hi>>
 Init == /\ st = [t \in Task |-> "none"] /\ depth = [t \in Task |-> 0] /\ tld = [t \in Task |-> 0]
@@ -24,7 +24,13 @@ Push(t) == st[t] = "live" /\ depth' = [depth EXCEPT ![t] = @ + 1] /\ UNCHANGED <
 Pop(t) == st[t] = "live" /\ depth[t] > 0 /\ depth' = [depth EXCEPT ![t] = @ - 1] /\ UNCHANGED <<st, tld, lo, hi>>
 SetTld(t, v) == st[t] = "live" /\ tld' = [tld EXCEPT ![t] = v] /\ UNCHANGED <<st, depth, lo, hi>>
 \* after every yield / suspension (possibly on another worker) the task observes its own state
-Check(t, d, v, ok) == st[t] = "live" /\ d = depth[t] /\ v = tld[t] /\ ok /\ UNCHANGED vars
+\* ok: stack canaries, callee-saved registers and identity intact; fpOk: floating-point control state
+\* (SSE rounding/masks, x87 control word) as the task left it.
+\* Deviation "FpControlStateNotPreserved": the context switch does not save the FP control state.
+Check(t, d, v, ok, fpOk) ==
+    /\ st[t] = "live" /\ d = depth[t] /\ v = tld[t] /\ ok
+    /\ (fpOk \/ "FpControlStateNotPreserved" \in Deviations)
+    /\ UNCHANGED vars
 Finish(t) == st[t] = "live" /\ depth[t] = 0 /\ st' = [st EXCEPT ![t] = "done"]
              /\ UNCHANGED <<depth, tld, lo, hi>>
 =============================================================================
